@@ -2,6 +2,7 @@ import JT.Model.Reply
 import JT.Spec.Reply
 import JT.Props.C01
 import JT.Proof.Pipe
+import JT.Gen.ConcShape
 /-!
 # C06 — automatic replies: one per request, correctly correlated, ordered and numbered
 
@@ -186,4 +187,9 @@ theorem all_served_at_quiescence {n cap : Nat} (hcap : 0 < cap) {s : Pipe.St} (h
 /-- Non-vacuity: a three-step run of the pipeline (read 0, enqueue, write 0) is reachable. -/
 example : Pipe.Reach 2 10 ⟨1, none, [], some 0, [.sockwrite 0, .readcb 0]⟩ :=
   .step (.step (.step .init (.r1 _ rfl (by decide))) (.r2 _ 0 rfl (by decide))) (.w1 _ 0 [] rfl rfl)
+
+/-- every delivered message is handed to the writer: the reader's send on `msgChan` is a plain blocking send, as the
+`r2` step of the Pipe system assumes (read off the source on every run) -/
+theorem messages_not_dropped : Gen.msgSendBlocking = true := by decide
+
 end JT.C06
